@@ -42,6 +42,42 @@ func init() {
 }
 
 func runC30(c *Ctx) {
+	// every port given to AddTile is registered with its tile and merged into it
+	if f := c.fn("tile-registration", "noc/networking/mesh", "Connector", "AddTile"); f != nil {
+		fn := c.P.SSAFunc(f)
+		loops := loopsOf(fn)
+		why := ""
+		n := 0
+		for _, b := range fn.Blocks {
+			for _, in := range b.Instrs {
+				mu, ok := in.(*ssa.MapUpdate)
+				if !ok || !strings.HasSuffix(VKey(mu.Map), "dstTable") {
+					continue
+				}
+				n++
+				l := innermost(loops, b)
+				if l == nil {
+					why = "ports are not registered in a loop over the given ports"
+					continue
+				}
+				for _, bp := range l.back {
+					if !b.Dominates(bp) {
+						why = "a port handed to AddTile can be skipped without being registered in the destination table (" + posOfBlock(fn, bp) + "): every switch then routes that port by a stale or missing entry — to the tile of an earlier network built with the same connector, or nowhere"
+					}
+				}
+			}
+			for _, in := range b.Instrs {
+				if call, ok := in.(*ssa.Call); ok && call.Common().StaticCallee() != nil && call.Common().StaticCallee().Name() == "mergePorts" {
+					args := call.Common().Args
+					if _, isParam := args[len(args)-1].(*ssa.Parameter); !isParam && why == "" {
+						why = "the tile is given a filtered port list instead of the ports handed to AddTile"
+					}
+				}
+			}
+		}
+		c.Check(n >= 1 && why == "", "tile-registration", "noc/networking/mesh.Connector.AddTile", c.P.Decl(f).Pos(), "every given port is registered and merged", why)
+	}
+
 	// every tile slot that is allocated gets a routing table: FindPort dereferences the
 	// destination tile's table unconditionally, and tiles are reached through pointers
 	// that survive a re-allocation of the grid
@@ -712,6 +748,64 @@ func runC35(c *Ctx) {
 				"the location dictionary is re-created although it may already hold interned locations whose rows are persisted: IDs are then handed out again and one ID maps to two strings")
 		}
 		c.Floor("dictionary-once", 1)
+	}
+	// a column that holds Go strings must not get a declared type with NUMERIC (or INTEGER/REAL)
+	// affinity: SQLite converts numeric-looking text stored in such a column
+	{
+		affinity := func(t string) string {
+			u := strings.ToUpper(t)
+			switch {
+			case u == "":
+				return "NONE"
+			case strings.Contains(u, "INT"):
+				return "INTEGER"
+			case strings.Contains(u, "CHAR"), strings.Contains(u, "CLOB"), strings.Contains(u, "TEXT"):
+				return "TEXT"
+			case strings.Contains(u, "BLOB"):
+				return "NONE"
+			case strings.Contains(u, "REAL"), strings.Contains(u, "FLOA"), strings.Contains(u, "DOUB"):
+				return "REAL"
+			}
+			return "NUMERIC"
+		}
+		bad := ""
+		for _, fn := range pkgFns {
+			res := fn.Signature.Results()
+			if res.Len() != 1 || !types.Identical(res.At(0).Type().Underlying(), types.Typ[types.String]) {
+				continue
+			}
+			for _, b := range fn.Blocks {
+				ret, ok := b.Instrs[len(b.Instrs)-1].(*ssa.Return)
+				if !ok {
+					continue
+				}
+				cst, isC := ret.Results[0].(*ssa.Const)
+				if !isC || cst.Value == nil {
+					continue
+				}
+				forString := false
+				for _, fact := range FactsAt(b) {
+					bo, isBO := fact.Cond.(*ssa.BinOp)
+					if !isBO || bo.Op != token.EQL || !fact.Truth {
+						continue
+					}
+					if k, isK := bo.Y.(*ssa.Const); isK && k.Value != nil && k.Value.String() == "24" { // reflect.String
+						if cl, isCall := bo.X.(*ssa.Call); isCall {
+							if nm, _ := calleeNamePkg(cl); nm == "Kind" {
+								forString = true
+							}
+						}
+					}
+				}
+				if forString {
+					if a := affinity(constText(cst)); a != "TEXT" && a != "NONE" {
+						bad += SSAFuncKey(fn) + " declares string columns as " + constText(cst) + " (SQLite affinity " + a + "); "
+					}
+				}
+			}
+		}
+		c.Check(bad == "", "string-affinity", "datarecording:column-types", 0, "no string column is declared with a converting type affinity",
+			bad+"SQLite converts text that looks like a number when it is stored in such a column (\"0042\" comes back as \"42\", \"1e3\" as \"1000\"): recorded string values and interned location strings are not read back unchanged")
 	}
 	// counted ⇔ buffered: an entry is in its table's buffer before the batch it belongs to is flushed
 	if f := c.fn("insert-order", "datarecording", "sqliteWriter", "InsertData"); f != nil {
